@@ -176,6 +176,17 @@ func runAPI(op string, args []string) string {
 				return fmt.Sprintf("ok - %d", p)
 			}
 			return fmt.Sprintf("ok %s %d", strings.Join(h.bits, ","), p)
+		case "FieldFloat":
+			// a field-selective decoder: the member named args[1] through ReadFloat64, every other member declined
+			h := &fieldFloatHandler{key: string(unhx(args[1])), val: "-"}
+			p, err := rjson.HandleObjectValues(data, h, bufferWith(parseStack(args[2])))
+			if h.failed {
+				return "herr"
+			}
+			if err != nil {
+				return fmtErr(err, p)
+			}
+			return fmt.Sprintf("ok %s %d", h.val, p)
 		case "ReadNull":
 			p, err := rjson.ReadNull(data)
 			return okp("-", p, err)
@@ -364,5 +375,24 @@ func (h *floatArrayHandler) HandleArrayValue(d []byte) (int, error) {
 		return 0, err
 	}
 	h.bits = append(h.bits, strconv.FormatUint(math.Float64bits(v), 10))
+	return p, nil
+}
+
+type fieldFloatHandler struct {
+	key    string
+	val    string
+	failed bool
+}
+
+func (h *fieldFloatHandler) HandleObjectValue(fieldname, d []byte) (int, error) {
+	if string(fieldname) != h.key {
+		return 0, nil
+	}
+	v, p, err := rjson.ReadFloat64(d)
+	if err != nil {
+		h.failed = true
+		return 0, err
+	}
+	h.val = strconv.FormatUint(math.Float64bits(v), 10)
 	return p, nil
 }
